@@ -57,6 +57,7 @@ func ZZ_C11_hpke_xkem_Public_two_threads_x448() { zzXKEMPublicTwoThreads(dhkemx4
 
 //zz:replace (hpke.dhKemBase).EncapsulateDeterministically set=kemfree
 func zzStubEncapDet(k dhKemBase, pkr kem.PublicKey, seed []byte) ([]byte, []byte, error) {
+	zzEncSeed = append([]byte{}, seed...)
 	return zzUF("kem.enc", 32, seed), zzUF("kem.ss", 32, seed), nil
 }
 
@@ -67,6 +68,8 @@ func zzStubDecap(k dhKemBase, skr kem.PrivateKey, ct []byte) ([]byte, error) {
 
 //zz:replace (hpke.AEAD).New set=kemfree
 func zzStubAEADNew(a AEAD, key []byte) (cipher.AEAD, error) { return &zzAEAD{}, nil }
+
+var zzEncSeed []byte
 
 type zzSeedReader struct{}
 
